@@ -796,3 +796,129 @@ def enuminfer(repo):
     res.samples = [f"{f.name}: defaults for {sorted(reads.values())}"]
     res.analysed = [ATTRIBUTE_CHECKER]
     return res
+
+
+# ---- R-BYTEORDERREQ -----------------------------------------------------------------------------------
+def _bo_eval(node, env):
+    """Evaluates a condition of the byte-order validator over the abstract facts in env."""
+    if isinstance(node, ast.BoolOp):
+        vals = [_bo_eval(v, env) for v in node.values]
+        return all(vals) if isinstance(node.op, ast.And) else any(vals)
+    if isinstance(node, ast.UnaryOp) and isinstance(node.op, ast.Not):
+        return not _bo_eval(node.operand, env)
+    if isinstance(node, ast.Compare) and len(node.ops) == 1:
+        l, r = ast.unparse(node.left), node.comparators[0]
+        if isinstance(node.ops[0], (ast.Is, ast.IsNot)) and isinstance(r, ast.Constant) and r.value is None and l in env["names"]:
+            present = env["names"][l]
+            return (not present) if isinstance(node.ops[0], ast.Is) else bool(present)
+        if isinstance(node.ops[0], (ast.Eq, ast.NotEq)) and l.endswith(".string_constant.text") and isinstance(r, ast.Constant):
+            eq = env["text"] == r.value
+            return eq if isinstance(node.ops[0], ast.Eq) else not eq
+        if isinstance(node.ops[0], ast.In) and isinstance(node.left, ast.Attribute) and ast.unparse(r) == "defaults":
+            return env["default"]
+    if isinstance(node, ast.Name) and node.id in env["names"]:
+        return bool(env["names"][node.id])
+    if isinstance(node, ast.Constant):
+        return bool(node.value)
+    if isinstance(node, ast.Call):
+        cn = (call_name(node) or "").split(".")[-1]
+        if cn in env["calls"]:
+            return env["calls"][cn]
+    raise ValueError(ast.unparse(node))
+
+
+def byteorderreq(repo):
+    """R-BYTEORDERREQ (C14, C01): the byte_order rules, decided on the whole truth table of
+    (attribute present, field needs a byte order, value is "Null", "Null" permitted):
+    * the validator reports an error exactly when (present and not needed) or (absent and needed) or
+      (present, "Null", and "Null" not permitted);
+    * the defaulting pass adds an attribute only when it is needed and absent, taking `$default` first and "Null" only
+      when permitted;
+    * a field needs a byte order exactly when its type's addressable unit differs from the enclosing structure's
+      (never for virtual fields)."""
+    res = RuleResult("R-BYTEORDERREQ")
+    m = repo.mod(ATTRIBUTE_CHECKER)
+    ver = m.funcs.get("_verify_byte_order_attribute_on_field")
+    add = m.funcs.get("_add_missing_byte_order_attribute_on_field")
+    need = m.funcs.get("_field_needs_byte_order")
+    if not (ver and add and need):
+        raise AnalysisError("attribute_checker: byte-order functions vanished")
+    # locals of the validator: name -> what it abstracts
+    role = {}
+    for n in ver.node.body:
+        if isinstance(n, ast.Assign) and isinstance(n.value, ast.Call) and isinstance(n.targets[0], ast.Name):
+            cn = (call_name(n.value) or "").split(".")[-1]
+            if cn == "get_attribute":
+                role[n.targets[0].id] = "attr"
+            elif cn == "_field_needs_byte_order":
+                role[n.targets[0].id] = "needs"
+    ifs = [n for n in ver.node.body if isinstance(n, ast.If)]
+    import itertools
+    for present, needs, null, may_null in itertools.product((False, True), repeat=4):
+        if null and not present:
+            continue
+        res.instances += 1
+        env = {"names": {k: (present if v == "attr" else needs) for k, v in role.items()}, "text": "Null" if null else "BigEndian",
+               "calls": {"_field_may_have_null_byte_order": may_null, "_field_needs_byte_order": needs}, "default": False}
+        try:
+            got = any(_bo_eval(i.test, env) for i in ifs if any(isinstance(x, ast.Call) and (call_name(x) or "").startswith("error.")
+                                                                for x in ast.walk(i)))
+        except ValueError as e:
+            raise AnalysisError(f"{ver.name}: condition `{e}` not understood")
+        want = (present and not needs) or (not present and needs) or (present and null and not may_null)
+        if got != want:
+            res.add(f"{ATTRIBUTE_CHECKER}|{ver.name}|{int(present)}{int(needs)}{int(null)}{int(may_null)}",
+                    f"{ver.name}: for byte_order {'present' if present else 'absent'}, field {'needing' if needs else 'not needing'} one, "
+                    f"value {'Null' if null else 'not Null'}, Null {'permitted' if may_null else 'not permitted'}: "
+                    f"{'an error is reported' if got else 'no error is reported'}; the documented rule says the opposite",
+                    ATTRIBUTE_CHECKER, ver.line, ver.name)
+    # defaulting pass: collect (guards, attribute source) for each extend
+    adds = []
+
+    def visit(stmts, guards):
+        for st in stmts:
+            if isinstance(st, ast.If):
+                visit(st.body, guards + [(st.test, True)])
+                visit(st.orelse, guards + [(st.test, False)])
+            elif isinstance(st, ast.Assign):
+                if isinstance(st.value, ast.Call) and (call_name(st.value) or "").endswith("get_attribute") and isinstance(st.targets[0], ast.Name):
+                    arole[st.targets[0].id] = "attr"
+            elif isinstance(st, ast.Expr) and isinstance(st.value, ast.Call) and isinstance(st.value.func, ast.Attribute) \
+                    and st.value.func.attr == "extend":
+                kind = "default" if "defaults[" in ast.unparse(st.value) else ("null" if '"Null"' in ast.unparse(st.value) or "'Null'" in ast.unparse(st.value) else "other")
+                adds.append((guards, kind))
+    arole = {}
+    visit(add.node.body, [])
+    if len(adds) < 2:
+        raise AnalysisError(f"{add.name}: attribute insertions not found")
+    for present, needs, has_default, may_null in itertools.product((False, True), repeat=4):
+        res.instances += 1
+        env = {"names": {k: present for k in arole}, "text": "", "default": has_default,
+               "calls": {"_field_may_have_null_byte_order": may_null, "_field_needs_byte_order": needs}}
+        try:
+            fired = [kind for guards, kind in adds if all(_bo_eval(t, env) == w for t, w in guards)]
+        except ValueError as e:
+            raise AnalysisError(f"{add.name}: condition `{e}` not understood")
+        want = []
+        if needs and not present:
+            want = ["default"] if has_default else (["null"] if may_null else [])
+        if fired != want:
+            res.add(f"{ATTRIBUTE_CHECKER}|{add.name}|{int(present)}{int(needs)}{int(has_default)}{int(may_null)}",
+                    f"{add.name}: byte_order {'present' if present else 'absent'}, {'needed' if needs else 'not needed'}, $default "
+                    f"{'set' if has_default else 'unset'}, Null {'permitted' if may_null else 'not permitted'}: adds {fired or 'nothing'}, "
+                    f"expected {want or 'nothing'}", ATTRIBUTE_CHECKER, add.line, add.name)
+    # what "needs" means
+    res.instances += 1
+    rets = [n for n in walk_no_nested_funcs(need.node) if isinstance(n, ast.Return)]
+    final = max(rets, key=lambda r_: r_.lineno).value if rets else None
+    ok = isinstance(final, ast.Compare) and isinstance(final.ops[0], ast.NotEq) and \
+        {ast.unparse(final.left).split(".")[-1], ast.unparse(final.comparators[0]).split(".")[-1]} == {"addressable_unit"} and \
+        ast.unparse(final.left) != ast.unparse(final.comparators[0])
+    virt = any(isinstance(n, ast.If) and "field_is_virtual" in ast.unparse(n.test) and any(
+        isinstance(r, ast.Return) and isinstance(r.value, ast.Constant) and r.value.value is False for r in n.body) for n in need.node.body)
+    if not ok or not virt:
+        res.add(f"{ATTRIBUTE_CHECKER}|{need.name}|definition", f"{need.name} is no longer 'not virtual and the type's addressable unit differs "
+                "from the structure's'", ATTRIBUTE_CHECKER, need.line, need.name)
+    res.samples = [f"{ver.name}: 12 cases; {add.name}: 16 cases"]
+    res.analysed = [ATTRIBUTE_CHECKER]
+    return res
